@@ -13,6 +13,8 @@ pub struct Gen {
     /// meaning by construction (None: invalid by construction)
     pub expected: Option<Vec<u8>>,
     pub max_dist: usize,
+    /// members of a position sweep: enumerated intact (raw and zlib) with truncations only, no bit flips
+    pub light: bool,
 }
 
 fn lits(s: &[u8]) -> Vec<Tok> {
@@ -20,7 +22,7 @@ fn lits(s: &[u8]) -> Vec<Tok> {
 }
 
 fn gen(name: String, plans: &[Plan]) -> Gen {
-    Gen { name, raw: build(plans), expected: expected(plans, &[]), max_dist: max_distance(plans) }
+    Gen { name, raw: build(plans), expected: expected(plans, &[]), max_dist: max_distance(plans), light: false }
 }
 
 /// explicit code-length sets (H-codes): complete canonical codes on few symbols, incl. extremes
@@ -315,6 +317,54 @@ pub fn base_raw(quick: bool) -> Vec<Gen> {
         d30[0] = 4;
         d30[1] = 4;
         v.push(gen("long hcode(15-bit ll chain, dist30, every codeword used mid-stream)".into(), &[Plan::Dynamic { toks: t, ll_lens: ll, d_lens: d30, rle: Rle::Greedy, hclen_trim: true }]));
+    }
+    // the same as the LAST token of the stream and with no earlier match (an earlier chunked copy of the same period
+    // overshoots its end and pre-writes exactly the bytes a wrong tail copy would have to produce)
+    for (nl, len, dist) in [(64usize, 70u16, 64u16), (64, 258, 64), (65, 66, 65), (96, 97, 70), (100, 101, 100), (100, 200, 100), (128, 258, 128), (130, 258, 129), (257, 258, 257), (300, 258, 200)] {
+        let mut t: Vec<Tok> = (0..nl as u32).map(|i| Tok::Lit((i.wrapping_mul(2654435761) >> 11) as u8)).collect();
+        t.push(Tok::Match(len, dist));
+        v.push(gen(format!("overlap-tail({nl} lits + match({len},{dist}))"), &[Plan::Fixed(t.clone())]));
+        t.push(Tok::Lit(b'.'));
+        v.push(gen(format!("overlap-tail({nl} lits + match({len},{dist}) + lit)"), &[Plan::DynamicAuto(t)]));
+    }
+    // position sweep: a (literal, literal, longest match) triple, followed by enough input for the fast loops, at
+    // EVERY output position p in 0..=530 (every distance from the end of a 256- and a 512-byte window, and of
+    // output rooms of those sizes), and around the end of each larger window size
+    {
+        let mut ps: Vec<usize> = (0..=530).collect();
+        for wb in 10..=15 {
+            let w = 1usize << wb;
+            ps.extend(w - 264..=w - 254);
+            ps.extend(w - 3..=w + 2);
+        }
+        for p in ps {
+            let mut t: Vec<Tok> = vec![];
+            let mut have = 0usize;
+            if p > 0 {
+                t.push(Tok::Lit(b'a'));
+                have = 1;
+                while have < p {
+                    let l = (p - have).min(258);
+                    if l >= 3 {
+                        t.push(Tok::Match(l as u16, 1));
+                        have += l;
+                    } else {
+                        t.push(Tok::Lit(b'a'));
+                        have += 1;
+                    }
+                }
+            }
+            t.push(Tok::Lit(b'b'));
+            t.push(Tok::Lit(b'c'));
+            t.push(Tok::Match(258, 1));
+            for _ in 0..40 {
+                t.push(Tok::Lit(b'd'));
+            }
+            t.push(Tok::Match(258, 41));
+            let mut g = gen(format!("align({p}: run of a, then b c match(258,1) 40xd match(258,41))"), &[Plan::Fixed(t)]);
+            g.light = true;
+            v.push(g);
+        }
     }
     // long streams: window wrap, 32 KiB distances, maximal stored block
     let mut long = vec![];
